@@ -1164,3 +1164,235 @@ Proof.
   - pose proof (exec_arg_events (s_pc (get_src (srcs g) i)) (s_gds (get_src (srcs g) i)) a a) as HE.
     destruct (exec _ _ _ _) as [[[[st p] g0] c] ev]. destruct st; cbn in Hc; injection Hc as <- _ <-; split; auto; constructor; auto; reflexivity.
 Qed.
+
+(* ---------- RAII balance across all source frames ---------- *)
+Definition ccount (f : event -> bool) (j : nat) (l : list sevent) : nat :=
+  count_ev f (map snd (filter (fun p => Nat.eqb (fst p) j) l)).
+
+Lemma ccount_app f j a b : ccount f j (a ++ b) = ccount f j a + ccount f j b.
+Proof. unfold ccount. rewrite filter_app, map_app. apply count_ev_app. Qed.
+
+Lemma ccount_tag f j i e : ccount f j (tag_ev i e) = if Nat.eqb i j then count_ev f e else 0.
+Proof.
+  unfold ccount, tag_ev. destruct (Nat.eqb i j) eqn:E; induction e as [|x e IH]; cbn [map filter fst snd]; rewrite ?E; cbn [map]; auto.
+  cbn [count_ev]. rewrite IH. reflexivity.
+Qed.
+
+Definition gcount (x : Z) (l : list src) (j : nat) : nat := count_z x (s_gds (get_src l j)).
+
+Lemma src_after_bal x s pc gs cur arg :
+  let '(s1, _, ev) := src_after s (exec pc gs cur arg) in
+  count_ev (is_ctor x) ev + count_z x gs = count_ev (is_dtor x) ev + count_z x (s_gds s1).
+Proof.
+  pose proof (exec_balance x pc gs cur arg) as H.
+  destruct (exec pc gs cur arg) as [[[[st p] g] c] ev]. destruct st; cbn; exact H.
+Qed.
+
+Lemma charge_bal x s a s1 b e : charge s a = Some (s1, b, e) ->
+  count_ev (is_ctor x) e + count_z x (s_gds s) = count_ev (is_dtor x) e + count_z x (s_gds s1).
+Proof.
+  unfold charge. destruct (s_bst s); try discriminate.
+  - intro H. injection H as H.
+    pose proof (src_after_bal x (mkSrc (s_pc s) (s_gds s) (s_cur s) a BInit (s_ret s) (s_exn s) (s_done s)) (s_pc s) (s_gds s) (s_cur s) a) as HB.
+    rewrite H in HB. exact HB.
+  - pose proof (src_after_bal x (mkSrc (s_pc s) (s_gds s) a a BYield (s_ret s) (s_exn s) (s_done s)) (s_pc s) (s_gds s) a a) as HB.
+    destruct (src_after _ _) as [[s2 b2] ev2]. intro H. injection H as <- _ <-. cbn. exact HB.
+Qed.
+
+Lemma complete_bal x s v s1 b e : complete_src s v = Some (s1, b, e) ->
+  count_ev (is_ctor x) e + count_z x (s_gds s) = count_ev (is_dtor x) e + count_z x (s_gds s1).
+Proof.
+  unfold complete_src. destruct (s_bst s); try discriminate.
+  pose proof (src_after_bal x s (s_pc s) (s_gds s) (s_cur s) (s_arg s)) as HB.
+  destruct (src_after _ _) as [[s2 b2] ev2]. intro H. injection H as <- _ <-. cbn. exact HB.
+Qed.
+
+Lemma gcount_set x l i s j : i < length l ->
+  gcount x (set_src l i s) j = if Nat.eqb i j then count_z x (s_gds s) else gcount x l j.
+Proof.
+  intro Hi. unfold gcount. destruct (Nat.eqb i j) eqn:E.
+  - apply Nat.eqb_eq in E. subst. rewrite get_set_same by exact Hi. reflexivity.
+  - apply Nat.eqb_neq in E. rewrite get_set_other by congruence. reflexivity.
+Qed.
+
+(* one source runs: events tagged i, only source i's locals change *)
+Lemma fire_bal x l i s1 e j : i < length l ->
+  count_ev (is_ctor x) e + count_z x (s_gds (get_src l i)) = count_ev (is_dtor x) e + count_z x (s_gds s1) ->
+  ccount (is_ctor x) j (tag_ev i e) + gcount x l j = ccount (is_dtor x) j (tag_ev i e) + gcount x (set_src l i s1) j.
+Proof.
+  intros Hi H. rewrite !ccount_tag, gcount_set by exact Hi. unfold gcount.
+  destruct (Nat.eqb i j) eqn:E; [apply Nat.eqb_eq in E; subst; exact H|lia].
+Qed.
+
+Lemma charge_from_bal x : forall n i a l q ev e j,
+  i + n = length l ->
+  let '(l', _, ev', _) := charge_from n i a l q ev e in
+  ccount (is_ctor x) j ev' + gcount x l j + ccount (is_dtor x) j ev
+  = ccount (is_dtor x) j ev' + gcount x l' j + ccount (is_ctor x) j ev.
+Proof.
+  induction n as [|n IH]; intros i a l q ev e j Hn; [cbn; lia|].
+  cbn [charge_from]. assert (Hi : i < length l) by lia.
+  destruct (charge (get_src l i) a) as [[[s1 b] e1]|] eqn:Ec.
+  - pose proof (fire_bal x l i s1 e1 j Hi (charge_bal x _ _ _ _ _ Ec)) as HF.
+    specialize (IH (S i) a (set_src l i s1) (if b then q ++ [i] else q) (ev ++ tag_ev i e1) e j).
+    unfold set_src in IH at 1. rewrite set_nth_length in IH. specialize (IH ltac:(lia)).
+    destruct (charge_from n (S i) a (set_src l i s1) _ _ e) as [[[l' q'] ev'] e'].
+    rewrite !ccount_app in IH. lia.
+  - specialize (IH (S i) a l q ev true j ltac:(lia)).
+    destruct (charge_from n (S i) a l q ev true) as [[[l' q'] ev'] e']. exact IH.
+Qed.
+
+Lemma destroy_srcs_count x j : forall l k,
+  ccount (is_ctor x) j (destroy_srcs l k) = 0 /\
+  ccount (is_dtor x) j (destroy_srcs l k) = (if Nat.leb k j then gcount x l (j - k) else 0).
+Proof.
+  induction l as [|s t IH]; intros k.
+  - split; [reflexivity|]. cbn [destroy_srcs]. destruct (Nat.leb k j); [|reflexivity]. unfold gcount, get_src. destruct (j - k); reflexivity.
+  - cbn [destroy_srcs]. rewrite !ccount_app, !ccount_tag. destruct (IH (S k)) as [IH1 IH2]. rewrite IH1, IH2.
+    rewrite count_ctor_map, count_dtor_map.
+    destruct (Nat.eqb k j) eqn:E.
+    + apply Nat.eqb_eq in E. subst. rewrite Nat.leb_refl, Nat.sub_diag.
+      assert (Nat.leb (S j) j = false) by (apply Nat.leb_gt; lia). rewrite H. unfold gcount, get_src. cbn. split; lia.
+    + apply Nat.eqb_neq in E. split; [destruct (Nat.leb (S k) j); reflexivity|].
+      destruct (Nat.leb k j) eqn:L.
+      * apply Nat.leb_le in L. assert (Nat.leb (S k) j = true) by (apply Nat.leb_le; lia). rewrite H.
+        unfold gcount, get_src. replace (j - k) with (S (j - S k)) by lia. cbn. lia.
+      * apply Nat.leb_gt in L. assert (Nat.leb (S k) j = false) by (apply Nat.leb_gt; lia). rewrite H. reflexivity.
+Qed.
+
+Lemma finish_destroy_bal x j g q c :
+  let '(g1, o) := finish_destroy g q c in
+  ccount (is_ctor x) j (o_ev o) + gcount x (srcs g) j = ccount (is_dtor x) j (o_ev o) + gcount x (srcs g1) j /\
+  gcount x (srcs g1) j = 0.
+Proof.
+  unfold finish_destroy. cbn [o_ev srcs].
+  destruct (destroy_srcs_count x j (srcs g) 0) as [H1 H2]. rewrite H1, H2. cbn [Nat.leb]. rewrite Nat.sub_0_r.
+  assert (H0 : gcount x (map (fun s => mkSrc (s_pc s) [] (s_cur s) (s_arg s) (s_bst s) (s_ret s) (s_exn s) (s_done s)) (srcs g)) j = 0).
+  { unfold gcount, get_src. clear H1 H2. generalize j. induction (srcs g) as [|s t IH]; intros [|k]; cbn [map nth s_gds count_z src0]; try reflexivity. apply IH. }
+  rewrite H0. split; lia.
+Qed.
+
+Lemma apply_outcome_srcs' g l r y : srcs (fst (apply_outcome g l r y)) = l.
+Proof. apply apply_outcome_srcs. Qed.
+
+Lemma gcount_app_src0 x l sc j : gcount x (l ++ [src0 sc]) j = gcount x l j.
+Proof.
+  unfold gcount, get_src. destruct (Nat.lt_ge_cases j (length l)) as [H|H].
+  - rewrite app_nth1 by exact H. reflexivity.
+  - rewrite app_nth2 by exact H. rewrite (nth_overflow l) by exact H.
+    destruct (j - length l) as [|[|k]]; reflexivity.
+Qed.
+
+(* one step: constructions + live locals before = destructions + live locals after, per source and local id *)
+Lemma step_bal ha g x0 x j : AInv g ->
+  let '(g1, o) := step ha g x0 in
+  ccount (is_ctor x) j (o_ev o) + gcount x (srcs g) j = ccount (is_dtor x) j (o_ev o) + gcount x (srcs g1) j.
+Proof.
+  intro HI.
+  assert (R : ccount (is_ctor x) j (o_ev rejected) + gcount x (srcs g) j = ccount (is_dtor x) j (o_ev rejected) + gcount x (srcs g) j) by reflexivity.
+  destruct x0 as [sc| |y a|i v| | |]; cbn [step].
+  - destruct (ast g); try exact R. destruct (Nat.ltb (length (srcs g)) 12); [|exact R].
+    cbn [o_ev srcs]. rewrite gcount_app_src0. reflexivity.
+  - destruct (ast g); first [exact R | reflexivity].
+  - destruct (idle g && style_ok ha y); [|exact R].
+    unfold AInv in HI. destruct (ast g) eqn:Ea; try exact R.
+    + unfold charge_all. pose proof (charge_from_bal x (length (srcs g)) 0 a (srcs g) [] [] false j eq_refl) as HC.
+      destruct (charge_from _ _ _ _ _ _ _) as [[[l q] ev] e].
+      pose proof (apply_outcome_srcs (mkAgg l q (count g) (aexp g) (ast g) (aret g) (aexn g) (adone g) (aout g) (aerr g || e)) l (agg_loop l q (count g) (aexp g)) y) as HS.
+      destruct (apply_outcome _ l _ y) as [g1 r]. cbn [fst o_ev] in *. rewrite HS. cbn in HC. lia.
+    + destruct HI as (_ & Hi & _).
+      destruct (charge (get_src (srcs g) i) a) as [[[s1 b] e]|] eqn:Ec.
+      * pose proof (fire_bal x (srcs g) i s1 e j Hi (charge_bal x _ _ _ _ _ Ec)) as HF.
+        pose proof (apply_outcome_srcs g (set_src (srcs g) i s1) (agg_loop (set_src (srcs g) i s1) (if b then queue g ++ [i] else queue g) (count g) (aexp g)) y) as HS.
+        destruct (apply_outcome g _ _ y) as [g1 r]. cbn [fst o_ev] in *. rewrite HS. exact HF.
+      * pose proof (apply_outcome_srcs g (srcs g) (agg_loop (srcs g) (queue g) (pred (count g)) (Some (-2)%Z)) y) as HS.
+        destruct (apply_outcome g _ _ y) as [g1 r]. cbn [fst o_ev srcs] in *. rewrite HS. reflexivity.
+  - destruct (ast g) eqn:Ea; try exact R;
+    (destruct (Nat.ltb i (length (srcs g))) eqn:Hlt; [|exact R]); apply Nat.ltb_lt in Hlt;
+    (destruct (complete_src (get_src (srcs g) i) v) as [[[s1 b] e]|] eqn:Ec; [|exact R]);
+    pose proof (fire_bal x (srcs g) i s1 e j Hlt (complete_bal x _ _ _ _ _ Ec)) as HF;
+    try (cbn [o_ev srcs]; exact HF).
+    + destruct (aout g) as [y|]; [|exact R].
+      pose proof (apply_outcome_srcs g (set_src (srcs g) i s1) (agg_loop (set_src (srcs g) i s1) (if b then queue g ++ [i] else queue g) (count g) (aexp g)) y) as HS.
+      destruct (apply_outcome g _ _ y) as [g1 r]. cbn [fst o_ev] in *. rewrite HS. exact HF.
+    + destruct (drain _ _) as [[q1 c1] bl]. destruct bl; [cbn [o_ev srcs]; exact HF|].
+      pose proof (finish_destroy_bal x j (mkAgg (set_src (srcs g) i s1) q1 c1 (aexp g) ADying (aret g) (aexn g) (adone g) (aout g) (aerr g)) q1 c1) as HD.
+      destruct (finish_destroy _ q1 c1) as [g1 o]. cbn [o_ev srcs] in *. destruct HD as [HD _].
+      rewrite !ccount_app. lia.
+  - destruct (idle g); [|exact R]. destruct (ast g) eqn:Ea; try exact R.
+    + pose proof (finish_destroy_bal x j g (queue g) (count g)) as HD. destruct (finish_destroy g _ _) as [g1 o]. apply HD.
+    + destruct (drain _ _) as [[q1 c1] bl]. destruct bl; [reflexivity|].
+      pose proof (finish_destroy_bal x j (mkAgg (srcs g) q1 c1 (aexp g) ADying (aret g) (aexn g) (adone g) (Some 0%Z) (aerr g)) q1 c1) as HD.
+      destruct (finish_destroy _ q1 c1) as [g1 o]. apply HD.
+    + destruct (drain _ _) as [[q1 c1] bl]. destruct bl; [reflexivity|].
+      pose proof (finish_destroy_bal x j (mkAgg (srcs g) q1 c1 (aexp g) ADying (aret g) (aexn g) (adone g) (Some 0%Z) (aerr g)) q1 c1) as HD.
+      destruct (finish_destroy _ q1 c1) as [g1 o]. apply HD.
+  - destruct (idle g); [|exact R]. destruct (ast g); first [exact R | reflexivity].
+  - exact R.
+Qed.
+
+Definition all_sevents (os : list obs) : list sevent := flat_map o_ev os.
+
+Lemma run_bal ha x j : forall ops g, AInv g ->
+  ccount (is_ctor x) j (all_sevents (fst (run_from ha g ops))) + gcount x (srcs g) j
+  = ccount (is_dtor x) j (all_sevents (fst (run_from ha g ops))) + gcount x (srcs (snd (run_from ha g ops))) j.
+Proof.
+  induction ops as [|x0 ops IH]; intros g HI; [cbn; lia|].
+  rewrite run_cons. cbn [fst snd all_sevents flat_map]. fold (all_sevents (fst (run_from ha (fst (step ha g x0)) ops))).
+  rewrite !ccount_app.
+  pose proof (step_bal ha g x0 x j HI) as HS. pose proof (step_inv ha g x0 HI) as HI1.
+  destruct (step ha g x0) as [g1 o]. cbn [fst snd] in *. specialize (IH g1 HI1). lia.
+Qed.
+
+(* the dead aggregate holds no live local *)
+Lemma dead_gcount ha x j : forall ops g, AInv g -> (ast g = ADead -> gcount x (srcs g) j = 0) ->
+  ast (snd (run_from ha g ops)) = ADead -> gcount x (srcs (snd (run_from ha g ops))) j = 0.
+Proof.
+  induction ops as [|x0 ops IH]; intros g HI HD; [exact HD|].
+  rewrite run_cons. cbn [snd]. apply IH; [apply step_inv; exact HI|].
+  clear IH. destruct x0 as [sc| |y a|i v| | |]; cbn [step].
+  - destruct (ast g) eqn:Ea; try (cbn [fst]; rewrite Ea; exact HD). destruct (Nat.ltb _ _); cbn; [discriminate|rewrite Ea; discriminate].
+  - destruct (ast g) eqn:Ea; try (cbn [fst]; rewrite Ea; exact HD). cbn. discriminate.
+  - destruct (idle g && style_ok ha y); [|exact HD].
+    destruct (ast g) eqn:Ea; try (cbn [fst]; rewrite Ea; exact HD).
+    + unfold charge_all. destruct (charge_from _ _ _ _ _ _ _) as [[[l q] ev] e].
+      destruct (apply_outcome _ l _ y) as [g1 r] eqn:E. cbn [fst]. unfold apply_outcome in E.
+      destruct (agg_loop _ _ _ _) as [[[o q'] c'] x']. destruct o; injection E as <- _; cbn; discriminate.
+    + destruct (charge _ _) as [[[s1 b] e]|]; destruct (apply_outcome g _ _ y) as [g1 r] eqn:E; cbn [fst ast]; unfold apply_outcome in E;
+      destruct (agg_loop _ _ _ _) as [[[o q'] c'] x']; destruct o; injection E as <- _; cbn; discriminate.
+  - destruct (ast g) eqn:Ea; try (cbn [fst]; rewrite Ea; exact HD);
+    (destruct (Nat.ltb i (length (srcs g))); [|cbn [fst]; rewrite Ea; try exact HD; discriminate]);
+    (destruct (complete_src _ _) as [[[s1 b] e]|]; [|cbn [fst]; rewrite Ea; try exact HD; discriminate]);
+    try (cbn; discriminate).
+    + destruct (aout g) as [y|]; [|cbn [fst]; rewrite Ea; discriminate].
+      destruct (apply_outcome g _ _ y) as [g1 r] eqn:E; cbn [fst]; unfold apply_outcome in E.
+      destruct (agg_loop _ _ _ _) as [[[o q'] c'] x']; destruct o; injection E as <- _; cbn; discriminate.
+    + destruct (drain _ _) as [[q1 c1] bl]. destruct bl; [cbn; discriminate|].
+      pose proof (finish_destroy_bal x j (mkAgg (set_src (srcs g) i s1) q1 c1 (aexp g) ADying (aret g) (aexn g) (adone g) (aout g) (aerr g)) q1 c1) as HF.
+      destruct (finish_destroy _ q1 c1) as [g1 o]. cbn [fst]. intros _. apply HF.
+  - destruct (idle g); [|exact HD]. destruct (ast g) eqn:Ea; try (cbn [fst]; rewrite Ea; exact HD).
+    + pose proof (finish_destroy_bal x j g (queue g) (count g)) as HF. destruct (finish_destroy g _ _) as [g1 o]. cbn [fst]. intros _. apply HF.
+    + destruct (drain _ _) as [[q1 c1] bl]. destruct bl; [cbn; discriminate|].
+      pose proof (finish_destroy_bal x j (mkAgg (srcs g) q1 c1 (aexp g) ADying (aret g) (aexn g) (adone g) (Some 0%Z) (aerr g)) q1 c1) as HF.
+      destruct (finish_destroy _ q1 c1) as [g1 o]. cbn [fst]. intros _. apply HF.
+    + destruct (drain _ _) as [[q1 c1] bl]. destruct bl; [cbn; discriminate|].
+      pose proof (finish_destroy_bal x j (mkAgg (srcs g) q1 c1 (aexp g) ADying (aret g) (aexn g) (adone g) (Some 0%Z) (aerr g)) q1 c1) as HF.
+      destruct (finish_destroy _ q1 c1) as [g1 o]. cbn [fst]. intros _. apply HF.
+  - destruct (idle g); [|exact HD]. destruct (ast g) eqn:Ea; cbn [fst]; rewrite ?Ea; try exact HD; discriminate.
+  - exact HD.
+Qed.
+
+(* C14 RAII balance: over any run, for every source j and local id x: constructions = destructions + locals of
+   source j still alive; once the aggregate is destroyed (at a yield with or without in-flight sources, never started,
+   or finished) every constructed local of every source frame has been destroyed exactly as often as constructed *)
+Theorem aggr_raii_balance : forall ha ops j x,
+  let r := run_from ha agg0 ops in
+  ccount (is_ctor x) j (all_sevents (fst r)) = ccount (is_dtor x) j (all_sevents (fst r)) + gcount x (srcs (snd r)) j /\
+  (ast (snd r) = ADead -> ccount (is_ctor x) j (all_sevents (fst r)) = ccount (is_dtor x) j (all_sevents (fst r))).
+Proof.
+  intros ha ops j x r. subst r.
+  pose proof (run_bal ha x j ops agg0 inv0) as HB.
+  assert (H0 : gcount x (srcs agg0) j = 0) by (unfold gcount, get_src; destruct j; reflexivity).
+  rewrite H0 in HB. split; [lia|].
+  intro Hd. pose proof (dead_gcount ha x j ops agg0 inv0 (fun H => ltac:(discriminate H)) Hd) as HG. lia.
+Qed.
